@@ -67,6 +67,11 @@ func run(c *vk.Ctx, can *rig.Canary, sc scen, idx int) {
 			obsIDs[0] = h.HandleOutgoing(simplefixgo.AcceptedMsgTypes, func(simplefixgo.SendingMessage) bool { return true })
 			obsIDs[1] = h.HandleOutgoing(simplefixgo.AllMsgTypes, func(simplefixgo.SendingMessage) bool { return true })
 		}
+	case "accepted-stage-observer-returns-false":
+		// an application observer of transmitted messages, registered before the logon; what it returns is documented as ignored
+		cfg.OnSession = func(h *simplefixgo.DefaultHandler, s *session.Session) {
+			h.HandleOutgoing(simplefixgo.AcceptedMsgTypes, func(simplefixgo.SendingMessage) bool { return false })
+		}
 	case "refused-sends-filter-registered-before-logon":
 		cfg.OnSession = refuse
 	case "refused-sends-filter-registered-after-logon":
@@ -268,18 +273,27 @@ func run(c *vk.Ctx, can *rig.Canary, sc scen, idx int) {
 		for time.Now().Before(end) {
 			sendAt(N * 3 / 10)
 		}
-	case "half-period-sends":
+	case "half-period-sends", "accepted-stage-observer-returns-false":
 		for time.Now().Before(end) {
 			sendAt(N / 2)
 		}
 	case "pair-just-under-a-tenth-apart":
 		// two sends a little less than N/10 (the timer's polling step) apart, then idleness: the Heartbeat is due N after the SECOND
+		// The phase is controlled (see send-inside-last-polling-step): the first send goes out 15 ms before a poll of
+		// the timer, the second one behind that poll.
 		for time.Now().Before(end) {
+			t0 := lastOut()
+			if d := time.Until(t0.Add(N/2 - 15*time.Millisecond)); d > 0 {
+				time.Sleep(d)
+			}
+			if !lastOut().Equal(t0) {
+				continue
+			}
 			_ = l.S.Send(fixgen.CreateMarketDataRequestReject("pair-1"))
 			time.Sleep(N * 9 / 100)
 			_ = l.S.Send(fixgen.CreateMarketDataRequestReject("pair-2"))
 			c.Count("app_sends", 2)
-			time.Sleep(N + N*6/10)
+			time.Sleep(N + N*3/10)
 		}
 	case "resend-replay-mid-period":
 		// the peer asks for a retransmission N/2 after the previous outbound message: the replay is an outbound message too
@@ -352,6 +366,10 @@ func run(c *vk.Ctx, can *rig.Canary, sc scen, idx int) {
 				// application send was in flight is concurrent with that send: either wire order is legitimate.
 				// walk back over the messages written within the concurrency window before this Heartbeat: its timer
 				// decision may predate all of them; the first message outside the window must be at least N old
+				// the scheduler's oversleep that matters for this judgement is the one measured between the message before
+				// the previous one (whose timer may have expired) and this Heartbeat — not a hiccup elsewhere in the run
+				from := prev.Add(-N - 200*time.Millisecond)
+				jit := can.MaxBetween(from, fr.T.Add(200*time.Millisecond))
 				window := 100*time.Millisecond + 5*jit
 				concurrentWithSend := false
 				if gap <= window {
@@ -404,7 +422,7 @@ func main() {
 	var scs []scen
 	for _, role := range []rig.Role{rig.Acceptor, rig.Initiator} {
 		for _, n := range ns {
-			for _, p := range []string{"idle", "send-just-before", "send-inside-last-polling-step", "counter-store-fault-on-one-send", "send-at-deadline", "send-just-after", "bursts-then-idle", "half-period-sends", "pair-just-under-a-tenth-apart", "resend-replay-mid-period", "handler-send-mid-period", "peer-answers-testrequests-late", "observers-removed-after-logon", "refused-sends-filter-registered-before-logon", "refused-sends-filter-registered-after-logon"} {
+			for _, p := range []string{"idle", "send-just-before", "send-inside-last-polling-step", "counter-store-fault-on-one-send", "accepted-stage-observer-returns-false", "send-at-deadline", "send-just-after", "bursts-then-idle", "half-period-sends", "pair-just-under-a-tenth-apart", "resend-replay-mid-period", "handler-send-mid-period", "peer-answers-testrequests-late", "observers-removed-after-logon", "refused-sends-filter-registered-before-logon", "refused-sends-filter-registered-after-logon"} {
 				scs = append(scs, scen{role, n, p, periods[n], 0})
 			}
 		}
